@@ -232,6 +232,10 @@ pub fn shape_of(sc: &Scenario, extra: &str) -> String {
 }
 
 pub fn short(e: &str) -> String {
+    let e = match e.find("name:") {
+        Some(i) => &e[..i + 4],
+        None => e,
+    };
     let s: String = e.chars().take(60).collect();
     s.replace(|c: char| c.is_ascii_digit(), "#")
 }
